@@ -37,6 +37,7 @@ func c01Hub(x *Ctx) {
 		withdrawGap = []time.Duration{0, time.Millisecond, lat, 2 * lat, 3 * lat, 5 * lat, 9 * lat, 3 * time.Second}[x.Choose("withdraw-gap", 8)]
 	}
 	withdrawnSeq := 0
+	withdrawnAt := time.Duration(0)
 	nOps := x.Choose("ops", 8)
 	var ops []string
 	for i := 0; i < nOps; i++ {
@@ -97,6 +98,7 @@ func c01Hub(x *Ctx) {
 		}
 		if duringDial {
 			withdrawnSeq = x.Ev("trust-withdrawn", storedThenWithdrawn, "", 0)
+			withdrawnAt = x.S.Now()
 		}
 		close(aStarted)
 		for _, op := range ops {
@@ -120,6 +122,11 @@ func c01Hub(x *Ctx) {
 			case "detail-B":
 				if storedThenWithdrawn == "cancel-during-dial" && completedBefore() {
 					// nothing was pending when the user cancelled: the completed pairing stays
+					break
+				}
+				if duringDial && completedBefore() && x.S.Now()-withdrawnAt < 2*time.Second {
+					// a completed connection is closed gracefully: it announces the close and
+					// stays registered for the 500 ms the peer gets to confirm
 					break
 				}
 				if st := a.hub.PairingDetailForSki(b.ski).State(); st == 5 || st == 7 {
